@@ -214,6 +214,32 @@ def rule_resolution(ctx):
             if len(adds) == 1 and not [c for c in (conditions_to(n["body"], adds[0]) or []) if c[0] not in ("loop",)]:
                 # the Err result is pushed to the reports
                 oki = sgrep.has(n, "if let Err(__r) = __fs.add_include(__i) { __rs.push(*__r); }") or sgrep.has(n, "match __fs.add_include(__i) { Err(__r) => __rs.push(*__r), __o => __x }") or any("push" in render(x) for x in walk(n) if x["k"] == "MethodCall" and x["method"] == "push")
+        if not oki:
+            # iterator form: REPORTS.extend(P.includes.iter().filter_map(|i| FS.add_include(i).err()) ..)
+            lenv = sgrep.lets(pf["body"])
+            for ext in method_calls(pf["body"], "extend"):
+                arg = strip(ext["args"][0]) if ext["args"] else None
+                if arg is not None and arg["k"] == "Path" and arg["path"] in lenv:
+                    arg = strip(lenv[arg["path"]])
+                if arg is None:
+                    continue
+                chain = []
+                r = arg
+                while r["k"] == "MethodCall":
+                    chain.append(r)
+                    r = strip(r["recv"])
+                base = render(r).replace(" ", "")
+                fm = [c for c in chain if c["method"] == "filter_map" and c["args"] and c["args"][0]["k"] == "Closure"]
+                only_transparent = all(c["method"] in ("iter", "iter_mut", "into_iter", "filter_map", "map", "cloned", "copied") for c in chain)
+                if len(fm) == 1 and only_transparent and base.endswith(".includes"):
+                    cl = fm[0]["args"][0]
+                    pn = [b_["name"] for i_ in cl["inputs"] for b_ in walk(i_) if b_["k"] == "PIdent"]
+                    bb = {}
+                    if len(pn) == 1 and sgrep.match(sgrep.pattern("__fs.add_include(%s).err()" % pn[0]), cl["body"], bb):
+                        # later `map` stages may only unbox
+                        maps = [c for c in chain if c["method"] == "map"]
+                        if all(m_["args"] and m_["args"][0]["k"] == "Closure" and strip(m_["args"][0]["body"])["k"] == "Path" and strip(m_["args"][0]["body"])["path"] in [b_["name"] for i_ in m_["args"][0]["inputs"] for b_ in walk(i_) if b_["k"] == "PIdent"] for m_ in maps) and not (conditions_to(pf["body"], ext) or []):
+                            oki = True
         ctx.check(R, "parse_file/every-include-resolved-and-errors-reported", oki, "every include of the parsed file goes through add_include and an Err is pushed to the reports", site(LIB, pf))
     pl = find_fn(PL, "parse_file")
     if pl is not None:
